@@ -242,12 +242,10 @@ class DetectReadsWritesCalls( DetectVarNames ):
     # A name bound inside the block (loop variable, temporary variable) is
     # local to it and shadows a module-level name: an index written with
     # such a name is a variable index, not the value of the global.
-    local = set()
-    for x in ast.walk( node ):
-      if   isinstance( x, ast.For ):    targets = [ x.target ]
-      elif isinstance( x, ast.Assign ): targets = x.targets
-      else:                             continue
-      local.update( t.id for t in targets if isinstance( t, ast.Name ) )
+    # Every name the block binds counts: tuple targets (for i, v in ...),
+    # comprehension variables, annotated and augmented assignments.
+    local = { x.id for x in ast.walk( node )
+              if isinstance( x, ast.Name ) and isinstance( x.ctx, ast.Store ) }
     if local:
       self.globals = { k for k in self.globals if k not in local }
 
